@@ -72,7 +72,7 @@ Fixpoint ptc_loop (fuel : nat) (t : tok) (more_tokens : list tok) : M sink_resul
     result <- (if foreign then step_foreign t else s <- get ;; step (mode s) t) ;;
     match result with
     | Done =>
-      (if should_have_acknowledged_self_closing_flag then parse_error else ret tt) ;;
+      (if should_have_acknowledged_self_closing_flag then probe 44 ;; parse_error else ret tt) ;;
       match more_tokens with
       | [] => ret SContinue
       | t' :: m' => ptc_loop f t' m'
@@ -90,6 +90,7 @@ Fixpoint ptc_loop (fuel : nat) (t : tok) (more_tokens : list tok) : M sink_resul
       | Some (first, is_ws, rest) =>
         let t' := KChars (if is_ws then Whitespace else NotWhitespace) first in
         let more' := match rest with [] => more_tokens | _ :: _ => more_tokens ++ [KChars NotSplit rest] end in
+        when (negb (is_nil rest)) (probe 43) ;;
         ptc_loop f t' more'
       end
     | PScript node => assert (is_nil more_tokens) 2 ;; ret (SScript node)
@@ -118,19 +119,22 @@ Definition process_token (tk : token) (line_number : N) : M sink_result :=
   when (negb (N.eqb line_number 1)) (emit (OpSetLine line_number)) ;;
   s <- get ;;
   let ign := ignore_lf s in
-  modify (set_ignore_lf false) ;;
+  (* deviation 1: `ignore_lf.take()` runs before the ParseError early return *)
+  modify (set_ignore_lf (match tk with TError => negb (dev_on s 1) && ign | _ => false end)) ;;
   match tk with
   | TError => parse_error ;; ret SContinue
   | TDoctype name pub sys force_quirks =>
     if mode_eqb (mode s) Initial then
-      let '(err, quirk) := doctype_error_and_quirks name pub sys force_quirks (o_iframe_srcdoc (opts s)) in
+      probe 46 ;;
+      let '(err, quirk) := doctype_error_and_quirks (negb (dev_on s 8)) (negb (dev_on s 13)) name pub sys force_quirks
+                                                    (o_iframe_srcdoc (opts s)) in
       when err parse_error ;;
       when (negb (o_drop_doctype (opts s)))
            (emit (OpAppendDoctype (or_empty name) (or_empty pub) (or_empty sys))) ;;
       do_set_quirks quirk ;;
       set_mode_m BeforeHtml ;;
       ret SContinue
-    else parse_error ;; ret SContinue
+    else probe 47 ;; parse_error ;; ret SContinue
   | TTag k name self_closing attrs had_dup =>
     process_to_completion
       (KTag {| tg_kind := k ; tg_name := name ; tg_self := self_closing ; tg_attrs := conv_attrs attrs ;
@@ -140,6 +144,7 @@ Definition process_token (tk : token) (line_number : N) : M sink_result :=
   | TEof => process_to_completion KEof
   | TChars x =>
     let x' := match x with c :: r => if ign && N.eqb c 0x0A then r else x | [] => x end in
+    when (negb (Nat.eqb (length x') (length x))) (probe 45) ;;
     match x' with
     | [] => ret SContinue
     | _ :: _ => process_to_completion (KChars NotSplit x')
@@ -174,7 +179,8 @@ Definition arm_counts : list (nat * nat) :=
     (mode_id InCell, length heads_in_cell); (mode_id InTemplate, length heads_in_template);
     (mode_id AfterBody, length heads_after_body); (mode_id InFrameset, length heads_in_frameset);
     (mode_id AfterFrameset, length heads_after_frameset); (mode_id AfterAfterBody, length heads_after_after_body);
-    (mode_id AfterAfterFrameset, length heads_after_after_frameset); (foreign_id, length heads_foreign) ].
+    (mode_id AfterAfterFrameset, length heads_after_after_frameset); (foreign_id, length heads_foreign);
+    (30, 54) (* helper probes, TreeModelHelpers.probe *) ].
 
 (* ---------- running ---------- *)
 Definition take_out (s : st) : list event * st := (rev (out s), set_out [] s).
